@@ -53,7 +53,7 @@ PROPS = {
                 15000, 300000, miri=miri(["queue"], 16, 256), sanitizers=["thread"]),
     "C08": plan("exploration",
                 "one trial = a burst of N in {2,4,5,6,8,16,40} keep-alive connections (barrier / staggered / two waves) against a worker pool in a seeded pre-state; every connection must be answered while all stay open, a stalled one is confirmed by closing another connection. distinct = (pre-state, N, pattern, task-queued?); every trial non-trivial",
-                15000, 300000, miri=miri(["pool_burst"], 8, 96, per=2), sanitizers=["thread"]),
+                15000, 300000, miri=miri(["pool_burst", "pool_retire_race"], 8, 96, per=2), sanitizers=["thread"]),
     "C09": plan("exploration",
                 "one case = body-bearing request (CL buffered / CL streamed / chunked; hostile body bytes spelling requests) consumed to a seeded prefix and finished by respond/drop/raw writer, followed by 1..3 requests; the delivered sequence must equal the sent sequence. distinct = (framing, length, consumption class, finish); non-trivial = body not read to EOF",
                 10000, 240000),
@@ -89,5 +89,5 @@ PROPS = {
                 5000, 120000),
     "C20": plan("exploration",
                 "(a) drop(server) at a seeded moment with handed-out / queued requests and connecting clients on own loopback addresses and UNIX paths: refusal within the bound and stable, path removed, handed-out requests answered; (b) library thread counts before a burst, at the peak, 7 s after closing, after a second burst and 7 s after drop. distinct = parameter tuple; non-trivial for (b) = the burst really created threads",
-                17000, 300000, miri=miri(["pool_retire"], 4, 64, per=2), hard={"quick": 300, "thorough": 1500}),
+                17000, 300000, miri=miri(["pool_retire", "pool_retire_race"], 6, 64, per=2), hard={"quick": 300, "thorough": 1500}),
 }
